@@ -5,7 +5,8 @@ Calendar accessors of timestamps and durations
 
 An instant is an `Int` number of nanoseconds since 1970-01-01T00:00:00Z (as in `Val.ts`), a duration an
 `Int` number of nanoseconds (`Val.dur`).  Civil time is computed with the days-from-civil algorithm on
-`Int` days (proleptic Gregorian calendar, the calendar of `chrono`).  `/` and `%` on `Int` are floor
+`Int` days (proleptic Gregorian calendar, the calendar of `chrono`): 400-year eras starting on March 1 of year 0,
+split into centuries, four-year cycles and years; the month from the day of the March-based year.  `/` and `%` on `Int` are floor
 division and non-negative remainder for the positive literal divisors used here.
 
 The time-zone database is a parameter: `ZoneDb = Str → Int → Option Int` gives, for a zone name and an
@@ -29,25 +30,35 @@ def isLeap (y : Int) : Bool := y % 4 == 0 && (y % 100 != 0 || y % 400 == 0)
 def eraOf (z : Int) : Int := (z + 719468) / 146097
 /-- Day of the era, `0 .. 146096`. -/
 def doeOf (z : Int) : Int := (z + 719468) % 146097
+/-- Whole centuries of the era before the day, `0 .. 3` (the last century has one day more). -/
+def n100Of (doe : Int) : Int := min (doe / 36524) 3
+/-- Day of the century, `0 .. 36524`. -/
+def r1Of (doe : Int) : Int := doe - n100Of doe * 36524
+/-- Whole four-year cycles of the century before the day, `0 .. 24`. -/
+def n4Of (doe : Int) : Int := r1Of doe / 1461
+/-- Day of the four-year cycle, `0 .. 1460`. -/
+def r2Of (doe : Int) : Int := r1Of doe % 1461
+/-- Whole years of the cycle before the day, `0 .. 3` (the last year has one day more). -/
+def n1Of (doe : Int) : Int := min (r2Of doe / 365) 3
 /-- Year of the era, `0 .. 399`. -/
-def yoeOf (doe : Int) : Int := (doe - doe / 1460 + doe / 36524 - doe / 146096) / 365
+def yoeOf (doe : Int) : Int := 100 * n100Of doe + 4 * n4Of doe + n1Of doe
 /-- Day of the year that starts on March 1, `0 .. 365`. -/
-def doyMarOf (doe : Int) : Int := doe - (365 * yoeOf doe + yoeOf doe / 4 - yoeOf doe / 100)
+def doyMarOf (doe : Int) : Int := r2Of doe - 365 * n1Of doe
 /-- Month counted from March, `0 .. 11`. -/
 def mpOf (doyMar : Int) : Int := (5 * doyMar + 2) / 153
 
-/-- Civil date of the day `z` days after 1970-01-01. -/
-def civilOfDays (z : Int) : Civil :=
-  let era := eraOf z
-  let doe := doeOf z
-  let yoe := yoeOf doe
-  let doyMar := doyMarOf doe
+/-- Civil date from the era, the year of the era and the day of the March-based year. -/
+def civilOfParts (era yoe doyMar : Int) : Civil :=
   let mp := mpOf doyMar
   let d := doyMar - (153 * mp + 2) / 5 + 1
   let m := if mp < 10 then mp + 3 else mp - 9
   let y := yoe + era * 400 + (if m ≤ 2 then 1 else 0)
   let doy := if mp < 10 then doyMar + 59 + (if isLeap y then 1 else 0) else doyMar - 306
   { year := y, month := m, day := d, doy := doy }
+
+/-- Civil date of the day `z` days after 1970-01-01. -/
+def civilOfDays (z : Int) : Civil :=
+  civilOfParts (eraOf z) (yoeOf (doeOf z)) (doyMarOf (doeOf z))
 
 /-- Days since 1970-01-01 of a civil date (inverse of `civilOfDays`). -/
 def daysOfCivil (y m d : Int) : Int :=
